@@ -85,10 +85,26 @@ func runHeap(c *Ctx) {
 	}
 
 	// index field: the item field whose load is passed to heap.Fix / heap.Remove
+	// the search itself plus the in-package helpers it calls (one level): a relaxation step may be extracted
+	scope := []*ssa.Function{dj}
+	siteOf := map[*ssa.Function]ssa.CallInstruction{}
+	for _, ci := range core.Calls(dj) {
+		if cal := ci.Common().StaticCallee(); cal != nil && core.Outer(cal).Pkg == p.Graph && cal.Blocks != nil && cal != dj {
+			if cal.Signature.Recv() != nil && core.NamedOf(cal.Signature.Recv().Type()) == "graph.Graph" {
+				continue
+			}
+			if _, dup := siteOf[cal]; !dup {
+				scope = append(scope, cal)
+				siteOf[cal] = ci
+			}
+		}
+	}
 	indexField := ""
-	for _, call := range core.Calls(dj, heapFix, heapRem) {
-		if fr, ok := core.AsFieldLoad(call.Common().Args[1]); ok {
-			indexField = fr.Field
+	for _, fn := range scope {
+		for _, call := range core.Calls(fn, heapFix, heapRem) {
+			if fr, ok := core.AsFieldLoad(call.Common().Args[1]); ok {
+				indexField = fr.Field
+			}
 		}
 	}
 
@@ -166,24 +182,37 @@ func runHeap(c *Ctx) {
 	type dstore struct {
 		st   *ssa.Store
 		base ssa.Value
+		fn   *ssa.Function
+		site ssa.CallInstruction // call site in the search when the store lives in a helper
 	}
 	var relax []dstore
 	var initStores []*ssa.Store
-	core.Instrs(dj, func(in ssa.Instruction) {
-		st, ok := in.(*ssa.Store)
-		if !ok {
-			return
-		}
-		fr, ok := core.AsFieldAddr(st.Addr)
-		if !ok || fr.Field != distField {
-			return
-		}
-		if core.InstrDominates(st, inits[0]) || !core.CanFollow(inits[0], st) {
-			initStores = append(initStores, st)
-			return
-		}
-		relax = append(relax, dstore{st, fr.Base})
-	})
+	for _, fn := range scope {
+		fn := fn
+		core.Instrs(fn, func(in ssa.Instruction) {
+			st, ok := in.(*ssa.Store)
+			if !ok {
+				return
+			}
+			fr, ok := core.AsFieldAddr(st.Addr)
+			if !ok || fr.Field != distField {
+				return
+			}
+			if fn == dj {
+				if core.InstrDominates(st, inits[0]) || !core.CanFollow(inits[0], st) {
+					initStores = append(initStores, st)
+					return
+				}
+				relax = append(relax, dstore{st, fr.Base, fn, nil})
+				return
+			}
+			site := siteOf[fn]
+			if core.InstrDominates(site, inits[0]) || !core.CanFollow(inits[0], site) {
+				return // a helper used during set-up
+			}
+			relax = append(relax, dstore{st, fr.Base, fn, site})
+		})
+	}
 
 	// H4: initialisation
 	infOK, srcOK := false, false
@@ -219,9 +248,40 @@ func runHeap(c *Ctx) {
 	for i, r := range relax {
 		key := fmt.Sprintf("relax#%d", i+1)
 		pos := p.InstrPos(r.st)
+		// view helper parameters as the arguments of its call site in the search (virtual inlining, one level)
+		env := map[*ssa.Parameter]ssa.Value{}
+		if r.site != nil {
+			for pi, prm := range r.fn.Params {
+				if pi < len(r.site.Common().Args) {
+					env[prm] = r.site.Common().Args[pi]
+				}
+			}
+		}
+		up := func(v ssa.Value) ssa.Value {
+			if prm, ok := v.(*ssa.Parameter); ok {
+				if a, ok := env[prm]; ok {
+					return a
+				}
+			}
+			return v
+		}
+		core.PathEnv = env
 		vPath := core.Path(r.base)
 		// H2: repaired before the next pop, predecessor stored alongside
-		repaired := !reachesWithout(r.st, pop, func(in ssa.Instruction) bool {
+		targets := []ssa.Instruction{pop}
+		if r.site != nil {
+			targets = nil
+			for _, ret := range core.Returns(r.fn) {
+				targets = append(targets, ret)
+			}
+		}
+		repaired := true
+		for _, tgt := range targets {
+			if reachesWithout(r.st, tgt, stopAtRepair(indexField, vPath)) {
+				repaired = false
+			}
+		}
+		_ = func() bool { return !reachesWithout(r.st, pop, func(in ssa.Instruction) bool {
 			if call, ok := in.(ssa.CallInstruction); ok {
 				n := core.CalleeName(call.Common())
 				if n == heapInit {
@@ -234,7 +294,7 @@ func runHeap(c *Ctx) {
 				}
 			}
 			return false
-		})
+		}) }
 		prevOK := false
 		for _, in := range r.st.Block().Instrs {
 			if st, ok := in.(*ssa.Store); ok && st != r.st {
@@ -263,6 +323,7 @@ func runHeap(c *Ctx) {
 					if cv, ok := w.(*ssa.Convert); ok {
 						w = cv.X
 					}
+					w = up(w)
 					if n, ok := extractNext(w); ok {
 						if rg, ok := n.Iter.(*ssa.Range); ok {
 							gf, err := c.graphFieldRoles()
@@ -283,11 +344,14 @@ func runHeap(c *Ctx) {
 			fmt.Sprintf("sum-of-popped-distance=%v weight-from-out-adjacency-of-popped=%v", sumOK, wOK))
 		// the relaxed item is the one looked up by the iterated neighbour key
 		itemOK := false
-		if lk, ok := r.base.(*ssa.Lookup); ok && core.Path(lk.Index) == weightKeyPath {
+		if lk, ok := up(r.base).(*ssa.Lookup); ok && core.Path(lk.Index) == weightKeyPath {
 			itemOK = true
 		}
 		c.R.Add("HEAP-H3", key+"|item-of-neighbour", name, pos, itemOK, "the relaxed item is the queue item of the iterated neighbour", fmt.Sprintf("ok=%v", itemOK))
 		lits := core.Lits(core.Guards(r.st.Block()))
+		if r.site != nil {
+			lits = append(lits, core.Lits(core.Guards(r.site.Block()))...)
+		}
 		cmpOK, visOK := false, false
 		oldPath := vPath + "." + distField
 		for _, l := range lits {
@@ -311,6 +375,8 @@ func runHeap(c *Ctx) {
 			"the update is guarded by 'neighbour not yet extracted' and every extracted vertex is recorded as visited right after the pop (also what keeps the predecessor map acyclic)",
 			fmt.Sprintf("visited-set-found=%v guard=%v", visited != nil, visOK))
 	}
+
+	core.PathEnv = nil
 
 	// H5: results are read from the items
 	rets := core.Returns(dj)
@@ -473,4 +539,24 @@ func reachesWithout(from ssa.Instruction, target ssa.Instruction, stop func(ssa.
 		}
 	}
 	return false
+}
+
+// stopAtRepair: the instruction repairs the heap for the item with path vPath (heap.Fix/Remove on its index) or re-heapifies.
+func stopAtRepair(indexField, vPath string) func(ssa.Instruction) bool {
+	return func(in ssa.Instruction) bool {
+		call, ok := in.(ssa.CallInstruction)
+		if !ok {
+			return false
+		}
+		n := core.CalleeName(call.Common())
+		if n == heapInit {
+			return true
+		}
+		if n == heapFix || n == heapRem {
+			if fr, ok := core.AsFieldLoad(call.Common().Args[1]); ok && fr.Field == indexField && core.Path(fr.Base) == vPath {
+				return true
+			}
+		}
+		return false
+	}
 }
